@@ -74,6 +74,11 @@ func Bubble(t *testing.T, f func()) (panicVal any) {
 					pv = fmt.Sprintf("%v\n%s", r, trimStackN(string(debug.Stack()), 30))
 				}
 			}()
+			// Let one heap timer of the bubble fire before anything else runs. Under -race the first timer of
+			// a bubble to fire initialises the bubble's race context; when that first firing happens on the
+			// "expired timer channel seen by select" path (runtime.(*timer).maybeRunChan on the system stack)
+			// go1.26.8 crashes inside the race runtime. A heap timer fired from the scheduler does not.
+			time.Sleep(time.Nanosecond)
 			f()
 		})
 		finished = true
